@@ -8,6 +8,7 @@
 #include <iostream>
 #include <iomanip>
 #include <memory>
+#include <mutex>
 #include <type_traits> 
 #include <utility>   
 #include <sstream>  
@@ -441,6 +442,7 @@ namespace SplineTrajectory
         mutable int derivatives_offset_ = 0;
         mutable int total_dimension_ = 0;
         mutable bool layout_dirty_ = true;
+        mutable std::mutex layout_mutex_;
         
         /**
          * @brief Helper method to retrieve or create the internal workspace.
@@ -530,6 +532,7 @@ namespace SplineTrajectory
 
         void ensureLayoutCache() const
         {
+            std::lock_guard<std::mutex> lock(layout_mutex_);
             if (!layout_dirty_)
             {
                 return;
